@@ -107,6 +107,10 @@ def call(t0, t1, bump, form, keep=None):
         f = _cal[0].drange
     else:
         f = drange
+    return guarded(f, a, z, b, keep)
+
+
+def guarded(f, a, z, b, keep=None):
     old = signal.signal(signal.SIGVTALRM, _alarm)
     cpu0 = time.process_time()
     try:
@@ -131,6 +135,90 @@ def call(t0, t1, bump, form, keep=None):
             _timeouts[1] += time.process_time() - cpu0
 
 
+# ---- realisations of the arguments (Drange!RealsOk says which the quantifier admits) --------------
+class _DT(datetime.datetime):
+    pass
+
+
+class _TD(datetime.timedelta):
+    pass
+
+
+class _S(str):
+    pass
+
+
+def render_end(t, r):
+    """the instant t as the object of realisation r"""
+    import numpy as np, pandas as pd
+    x = inst(t)
+    if r == 'datetime':
+        return x
+    if r == 'sub':
+        return _DT(x.year, x.month, x.day, x.hour, x.minute, x.second, x.microsecond)
+    if r == 'ts':
+        return pd.Timestamp(x)
+    if r == 'date':
+        return x.date()
+    if r in ('np_D', 'np_s', 'np_us', 'np_ns'):
+        return np.datetime64(x.date() if r == 'np_D' else x, r[3:])
+    if r == 'int':
+        return x.year * 10000 + x.month * 100 + x.day
+    fmt = {'str_d': '%Y-%m-%d', 'str_c': '%Y%m%d', 'str_s': '%Y-%m-%d %H:%M:%S', 'str_us': '%Y-%m-%dT%H:%M:%S.%f'}
+    return x.strftime(fmt[r])
+
+
+def render_bump_real(b, r):
+    """the abstract bump b as the object of realisation r"""
+    import numpy as np, pandas as pd
+    if b[0] == 'int':
+        if r == 'int':
+            return b[1]
+        if r == 'array_item':
+            return np.arange(b[1], b[1] + 2)[0]
+        if r == 'series_item':
+            return pd.Series([b[1]])[0]
+        return getattr(np, r[3:])(b[1])
+    if b[0] == 'td':
+        kw = dict(days=b[1][0], seconds=b[1][1], microseconds=b[1][2])
+        return pd.Timedelta(**kw) if r == 'pd_Timedelta' else _TD(**kw) if r == 'td_sub' else datetime.timedelta(**kw)
+    if r == 'm':
+        txt = ''.join(part_str(n, u, 'ul'[i % 2]) for i, (n, u) in enumerate(b[1]))
+    else:
+        txt = ''.join(part_str(n, u, r if r in ('u', 'p') else 'l') for n, u in b[1])
+    return _S(txt) if r == 'str_sub' else np.str_(txt) if r == 'np_str' else txt
+
+
+def call_real(t0, t1, bump, reals, keep=None):
+    from pyg_base import drange
+    return guarded(drange, render_end(t0, reals['t0']), render_end(t1, reals['t1']), render_bump_real(bump, reals['bump']), keep)
+
+
+def edit_registry(e):
+    """the caller's actions on the calendar registry between calls (DrangeSession!EditReg), through the public API"""
+    from pyg_base import calendar, Calendar
+    day = lambda os: [datetime.datetime.fromordinal(o) for o in sorted(os)]
+    kind = e[0]
+    if kind == 'set_holidays':
+        calendar(None, holidays=day(e[1]))
+    elif kind == 'set_weekend':
+        calendar(None, weekend=tuple(sorted(e[1])))
+    elif kind == 'set_both':
+        calendar(None, holidays=day(e[1]), weekend=sorted(e[2]))
+    elif kind == 'register':
+        calendar(Calendar(None, holidays=day(e[1]), weekend=sorted(e[2])))
+    elif kind == 'add_inplace':
+        c = calendar()
+        for d in day(e[1]):
+            c.holidays[d] = d
+    elif kind == 'reset':
+        calendar(None, holidays=[], weekend=[5, 6])
+    elif kind == 'named':
+        calendar('verif_c10_another', holidays=day(e[1]), weekend=sorted(e[2]))
+    else:
+        raise ValueError(kind)
+
+
 def mutate(r, how, rng=None):
     """what a caller may do, in place, to a list it was given"""
     if not isinstance(r, list):
@@ -151,11 +239,16 @@ def mutate(r, how, rng=None):
             r[i] = datetime.datetime(1999, 12, 31)
 
 
-def case_of(t0, t1, bump, form, before=None):
+def case_of(t0, t1, bump, form, before=None, reals=None, script=None):
     """stable, matchable description of a failing input (before = what happened earlier in the history)"""
     c = _case_of(t0, t1, bump, form)
     c['history'] = before or []
-    c['after_mutation'] = bool(before)
+    c['after_mutation'] = any(h.get('op') == 'mutate_result' for h in before or [])
+    if reals is not None:                                 # how the arguments were realised / the whole session, for --replay
+        c.update({'t0_real': reals['t0'], 't1_real': reals['t1'], 'bump_real': reals['bump'], 'session': True,
+                  'after_registry_edit': any(h.get('op') == 'edit' for h in before or []),
+                  'after_call_same_bump': any(h.get('op') == 'drange' and h.get('kind') == bump[0] and h.get('bump') == bump[1] for h in before or [])})
+        c['script'] = script or []
     return c
 
 
@@ -175,10 +268,13 @@ def _case_of(t0, t1, bump, form):
     return c
 
 
-def observe(t0, t1, bump, form, keep=None, before=None):
+def observe(t0, t1, bump, form, keep=None, before=None, reals=None):
     if exhausted():
         raise GaveUp()
-    o = {'t0': t0, 't1': t1, 'bump': bump, 'form': form, 'out': call(t0, t1, bump, form, keep)}
+    if reals is not None:
+        o = {'t0': t0, 't1': t1, 'bump': bump, 'form': form, 'reals': reals, 'out': call_real(t0, t1, bump, reals, keep)}
+    else:
+        o = {'t0': t0, 't1': t1, 'bump': bump, 'form': form, 'out': call(t0, t1, bump, form, keep)}
     if before:
         o['before'] = before
     return o
@@ -188,7 +284,7 @@ def judge(ctx, obs, count=True):
     """Trace_Drange names the clause each observation breaks; every rejected line is a violation"""
     if not obs:
         return
-    bad = ctx.validate('Trace_Drange', obs)
+    bad = ctx.validate('Trace_Drange', [{k: v for k, v in o.items() if k != 'script'} for o in obs])
     for i, clause in bad:
         o = obs[i - 1]
         if clause == 'domain':
@@ -196,7 +292,7 @@ def judge(ctx, obs, count=True):
             raise Machinery('Trace_Drange: observation %d is outside the specified domain: %r' % (i, {k: o[k] for k in ('t0', 't1', 'bump')}))
         out = o['out']
         shown = out if out[0] != 'ok' else ['ok', out[1][:4] + (['... %d elements' % len(out[1])] if len(out[1]) > 4 else [])]
-        ctx.violation(clause, case_of(o['t0'], o['t1'], o['bump'], o['form'], o.get('before')), {'observed': shown})
+        ctx.violation(clause, case_of(o['t0'], o['t1'], o['bump'], o['form'], o.get('before'), o.get('reals'), o.get('script')), {'observed': shown})
     return bad
 
 
@@ -285,6 +381,101 @@ def s2c_histories(ctx, hists):
     if len({i for i, _ in bad}) != len(suspects):
         from harness.core import Machinery
         raise Machinery('S2C histories: %d outcomes differ from what MC_Drange printed but Trace_Drange rejects only %d' % (len(suspects), len({i for i, _ in bad})))
+
+
+# ---- sessions ----------------------------------------------------------------------------------
+def brief(step):
+    """a step of a session as it appears in the `before` of later observations (and in known-finding matchers)"""
+    if step['op'] == 'call':
+        return {'op': 'drange', 'kind': step['bump'][0], 'bump': step['bump'][1]}
+    if step['op'] == 'edit':
+        return {'op': 'edit', 'edit': step['edit'][0]}
+    return {'op': 'mutate_result', 'how': step['how']}
+
+
+def exec_session(steps, suspects, observations):
+    """one session in this process: the calls of the script in order, between them the caller's own actions (edits of the
+    default calendar through calendar(), in-place changes of the list the latest call returned).  Every call is compared with
+    the outcomes TLC printed for it (the law of its own arguments: a call has no memory); returns the number of calls"""
+    before, keep, script, n, dirty = [], [], [], 0, False
+    for step in steps:
+        script.append({k: v for k, v in step.items() if k != 'accept'})
+        if step['op'] == 'call':
+            keep = []
+            # (the process is older than the session: the first call this process made with the same bump goes in front of the
+            # recorded script, so that --replay in a new process can rebuild what a per-bump memo would hold)
+            key = json.dumps(step['bump'])
+            first = _first_call.setdefault(key, script[-1])
+            o = observe(step['t0'], step['t1'], step['bump'], 'real', keep, list(before), step['reals'])
+            o['script'] = ([first] if first not in script else []) + list(script)
+            n += 1
+            observations.append(o)
+            if o['out'] not in step['accept']:
+                suspects.append(o)
+        elif step['op'] == 'edit':
+            edit_registry(step['edit'])
+            dirty = True
+        else:
+            if keep:
+                mutate(keep[0], step['how'])
+        before.append(brief(step))
+    if dirty:                                              # the caller puts the default calendar back: the next session starts from
+        edit_registry(['reset'])                           # a registry equal to a new process's
+    return n
+
+
+_first_call = {}
+
+
+def family_of(steps):
+    ops = [st['op'] for st in steps]
+    if 'edit' in ops:
+        return 'edit'
+    if 'mutate_result' in ops:
+        return 'mutate'
+    calls = [st for st in steps if st['op'] == 'call']
+    if len(calls) == 1:
+        return 'realisation'
+    if len(calls) == 2 and [calls[0][k] for k in ('t0', 't1', 'bump')] == [calls[1][k] for k in ('t0', 't1', 'bump')]:
+        return 'same_call_twice'
+    if len(calls) == 2 and calls[0]['bump'] == calls[1]['bump']:
+        return 'same_bump_two_windows'
+    if len(calls) == 2:
+        return 'same_window_two_bumps'
+    return 'long'
+
+
+def s2c_sessions(ctx, sessions, label, c2s_sample):
+    """TLC's scripts (MC_DrangeSession) replayed in this one process, in a fixed mixed order: the process itself is one long
+    history, and every call in it must still return what the law says of its own arguments.  Mismatches are classified by
+    Trace_Drange; a seeded sample of all observations (thorough: all of them) is validated by Trace_Drange as well (C2S)"""
+    sessions = sorted(sessions, key=lambda h: hashlib.sha1(json.dumps(h, sort_keys=True).encode()).hexdigest())
+    suspects, observations, fams, gave_up = [], [], {}, False
+    for k, h in enumerate(sessions):
+        steps = h['hist']
+        try:
+            n = exec_session(steps, suspects, observations)
+        except GaveUp:
+            gave_up = True
+            break
+        ctx.evals += n
+        ctx.traces += 1
+        fam = family_of(steps)
+        fams[fam] = fams.get(fam, 0) + 1
+        ctx.note(('session', hashlib.sha1(json.dumps(steps, sort_keys=True).encode()).hexdigest()))
+        if fams[fam] == 3:
+            ctx.sample({'s2c_session_' + fam: [{kk: (vv if kk != 'accept' else [a if a[0] != 'ok' else ['ok', a[1][:3]] for a in vv]) for kk, vv in st.items()} for st in steps]}, limit=12)
+    edit_registry(['reset'])
+    ctx.extra['sessions_' + label] = {'sessions': sum(fams.values()), 'calls': len(observations), 'by_family': fams,
+                                      'realisations_seen': {a: sorted({o['reals'][a] for o in observations}) for a in ('t0', 't1', 'bump')}}
+    bad = judge(ctx, suspects) or []
+    if len({i for i, _ in bad}) != len(suspects):
+        from harness.core import Machinery
+        raise Machinery('S2C sessions: %d outcomes differ from what MC_DrangeSession printed but Trace_Drange rejects only %d' % (len(suspects), len({i for i, _ in bad})))
+    if observations and not suspects:
+        pick = observations if c2s_sample is None else [observations[i] for i in sorted(ctx.rng.sample(range(len(observations)), min(c2s_sample, len(observations))))]
+        judge(ctx, pick)
+    return not gave_up
 
 
 # ---- C2S ---------------------------------------------------------------------------------------
@@ -544,9 +735,18 @@ def run(ctx):
                 'off by a time of day / a second / a microsecond, shorter than a day or than one bump), validated by Trace_Drange. Non-trivial = a list of at least 2 elements or a rejection; distinct by (t0, t1, bump).')
     ctx.mc('MC_Drange', 'MC_Drange_quick.cfg' if ctx.quick else 'MC_Drange_thorough.cfg')
     _timeouts[:] = [0, 0.0, SLOW_BUDGET_S['quick' if ctx.quick else 'thorough']]
+    ctx.mc('MC_DrangeSession', 'MC_DrangeSession_quick.cfg' if ctx.quick else 'MC_DrangeSession_thorough.cfg')
+    if not ctx.quick:
+        for cfg, clause in (('memo', 'NoMemory'), ('regcal', 'RegistryBlind'), ('cache', 'ResultOwned')):
+            ctx.mc('MC_DrangeSession', 'MC_DrangeSession_%s.cfg' % cfg, must_fail=clause, coverage=False)
     try:
         s2c_histories(ctx, ctx.generate('MC_Drange', 'MC_Drange_genH.cfg'))
-        if s2c(ctx, ctx.generate('MC_Drange', 'MC_Drange_gen.cfg' if ctx.quick else 'MC_Drange_gen2.cfg')):
+        ok = s2c_sessions(ctx, ctx.generate('MC_DrangeSession', 'MC_DrangeSession_gen.cfg' if ctx.quick else 'MC_DrangeSession_gen2.cfg'),
+                          'scripts', 2500 if ctx.quick else None)
+        if ok and not ctx.quick:
+            sim = ctx.generate('MC_DrangeSession', 'MC_DrangeSession_sim.cfg', simulate=3000, depth=9, seed=ctx.seed + 10, workers=1)
+            ok = s2c_sessions(ctx, sim, 'simulated', None)
+        if ok and s2c(ctx, ctx.generate('MC_Drange', 'MC_Drange_gen.cfg' if ctx.quick else 'MC_Drange_gen2.cfg')):
             c2s(ctx, *((1500, 60, False, 400) if ctx.quick else (20000, 600, True, 6000)))
     except GaveUp:
         pass
@@ -571,6 +771,16 @@ def run(ctx):
 def replay(ctx, body):
     """./check C10 --replay <file>: re-execute one recorded failing call and let Trace_Drange judge it again"""
     c = body['case']
+    if c.get('script'):                                    # a session: the steps before the failing call, then the call itself
+        suspects, observations = [], []
+        exec_session([dict(st, accept=[]) for st in c['script']], suspects, observations)
+        o = observations[-1]
+        bad = ctx.validate('Trace_Drange', [{k: v for k, v in o.items() if k != 'script'}])
+        print('replay C10: session %s -> %s : %s' % (json.dumps(c['script']), o['out'] if o['out'][0] != 'ok' else ['ok', o['out'][1][:6]],
+                                                     'VIOLATES ' + bad[0][1] if bad else 'explained by the specification'))
+        import shutil
+        shutil.rmtree(ctx.tmp, ignore_errors=True)
+        return 1 if bad else 0
     o = observe(c['t0'], c['t1'], [c['kind'], c['bump']], c['form'])
     bad = ctx.validate('Trace_Drange', [o])
     shown = o['out'] if o['out'][0] != 'ok' else ['ok', o['out'][1][:6]]
